@@ -489,6 +489,11 @@ impl<M: Manager, W: From<Object<M>>> Pool<M, W> {
         #[cfg(deadpool_verif)]
         crate::verif::point("resize.open");
         let mut slots = self.inner.slots.lock().unwrap();
+        // `close()` may have completed while this call was waiting for the
+        // lock. Resizing a closed pool must have no effect.
+        if self.inner.semaphore.is_closed() {
+            return;
+        }
         let old_max_size = slots.max_size;
         slots.max_size = max_size;
         // shrink pool
@@ -590,6 +595,9 @@ impl<M: Manager, W: From<Object<M>>> Pool<M, W> {
         // to acquire. Objects whose permit was already handed to a waiting
         // task or that are being returned right now are still in the queue.
         let mut slots = self.inner.slots.lock().unwrap();
+        // A concurrent `resize()` may have raised the limit again between
+        // `resize(0)` and `Semaphore::close()`. A closed pool keeps nothing.
+        slots.max_size = 0;
         while let Some(mut obj) = slots.vec.pop_front() {
             slots.size -= 1;
             self.inner.manager.detach(&mut obj.obj);
